@@ -49,6 +49,26 @@ Theorem C20_adjacent_steps_commute : forall (L : Type) (ops : nat -> op L),
 Proof. exact adjacent_commute. Qed.
 Print Assumptions C20_adjacent_steps_commute.
 
+(** the outcome does not depend on the interleaving chosen: schedules giving every operation the
+    same number of turns end in the same local states and in heaps that agree on every footprint *)
+Theorem C20_schedule_independence : forall (L : Type) (ops : nat -> op L),
+  all_ok L ops -> writes_disjoint L ops -> forall h0 s1 s2,
+  (forall i, count_occ Nat.eq_dec s1 i = count_occ Nat.eq_dec s2 i) ->
+  (forall i, locals L (run L ops h0 s1) i = locals L (run L ops h0 s2) i) /\
+  (forall i l, In l (op_footprint L ops i) -> hp L (run L ops h0 s1) l = hp L (run L ops h0 s2) l) /\
+  (forall l, (forall i, ~ In l (o_writes L (ops i))) -> hp L (run L ops h0 s1) l = hp L (run L ops h0 s2) l).
+Proof. exact schedule_independence. Qed.
+Print Assumptions C20_schedule_independence.
+
+(** finitely many operations given as a list (pairwise disjoint write sets): same conclusion *)
+Theorem C20_readonly_interleave_list : forall (L : Type) (d : L) (l : list (op L)),
+  Forall (op_ok L) l -> list_disjoint L l -> forall h0 sched i o,
+  nth_error l i = Some o ->
+  locals L (run L (ops_of_list L d l) h0 sched) i =
+  fst (run_alone L o h0 (count_occ Nat.eq_dec sched i)).
+Proof. exact readonly_interleave_list. Qed.
+Print Assumptions C20_readonly_interleave_list.
+
 (** the shape the code obligations establish: operations write only locations they own (objects
     they allocated) and read only those and the shared state; then every operation obtains what it
     obtains alone and the shared state (compiled module, package-level variables) never changes *)
@@ -97,3 +117,13 @@ Theorem C20_pinned_commit_refuted :
   hp lstate (run lstate uses_old (fun _ => 0%Z) [0;1;0;1]) 0 = 1%Z /\
   conflict lstate uid_step2 uid_step1.
 Proof. exact (conj uid_not_disjoint uid_counter_refuted). Qed.
+
+(** limit of the model, stated: a lazily initialised cache in a shared object keeps every result
+    equal in this sequentially consistent model, yet violates the hypothesis and is a conflict - a
+    data race; it is rejected by the footprint obligations and the race detector, not by results *)
+Example C20_lazy_init_is_a_race :
+  ~ writes_disjoint lstate lazy_reader /\ conflict lstate lazy_step2 lazy_step1 /\
+  snd (locals lstate (run lstate lazy_reader (fun _ => 0%Z) [0;1;0;1]) 0) = 42%Z /\
+  snd (locals lstate (run lstate lazy_reader (fun _ => 0%Z) [0;1;0;1]) 1) = 42%Z /\
+  snd (locals lstate (run lstate lazy_reader (fun _ => 0%Z) [0;0;1;1]) 1) = 42%Z.
+Proof. exact lazy_init_is_a_race. Qed.
